@@ -17,6 +17,9 @@ PROV_CLASS_URIS = {k.uri for k in PROV_REC_CLS}
 from prov.constants import PROV_BASE_CLS  # noqa: E402
 
 ALL_PROV_CLASS_NAMES = {k.uri for k in PROV_BASE_CLS}
+import re  # noqa: E402
+
+TURTLE_LOCAL = re.compile(r"^[A-Za-z0-9_][A-Za-z0-9_.\-]*$")
 BINARY_ONLY = {"Attribution", "Communication", "Delegation", "Influence", "Specialization",
                "Alternate", "Membership"}
 NO_QUALIFIED_FORM = {"Specialization", "Alternate", "Membership"}
@@ -38,7 +41,7 @@ def rdf_ineligible(d):
         if not isinstance(q, QualifiedName):
             return False
         p = q.namespace.prefix
-        if "/" in q.localpart or "#" in q.localpart:
+        if not TURTLE_LOCAL.match(q.localpart) or q.localpart.endswith("."):
             # not writable as a Turtle prefixed name: rdflib then writes the full IRI and
             # drops the (unused) @prefix line, so the declaration never reaches the reader -
             # the situation the quantifier's first clause exists to exclude
@@ -148,11 +151,12 @@ class C07(RoundTrip):
     def swarm(self, rng):
         cfg = RoundTrip.swarm(self, rng)
         p = cfg["profile"]
-        p["w"].update({"set_default": 0, "fbundle": 0, "add_bundle": 0, "update": 0, "add_record": 0,
+        p["w"].update({"set_default": rng.choice([0, 0, 1]), "fbundle": 0, "add_bundle": 0, "update": 0, "add_record": 0,
                        "unified": 0, "add_type": rng.choice([0, 1]), "bundle": rng.choice([0, 2, 3]),
                        "add_ns": 6, "roundtrip": 4})
         p.update({
-            "defaults": False, "bundle_defaults": False, "bundle_ns": False,
+            # a default namespace may be *declared* on the document; no name ever uses it
+            "defaults": True, "bundle_defaults": False, "bundle_ns": False,
             "name_kinds": {"nsobj": 6, "pl": 2},
             "formal_as": {"nsobj": 4, "pl": 2, "rec": 3},
             "value_kinds": {"s": 6, "i": 3, "b": 2, "dt": 3, "uri": 2, "qnv": 3, "lang": 3,
